@@ -30,21 +30,21 @@ import (
 )
 
 var (
-	flagProperty = flag.String("property", "", "property id (C05, C12, C13, C14, C19)")
-	flagTier     = flag.String("tier", "", "quick | thorough (default: $VERIF_TIER or quick)")
-	flagReplay   = flag.String("replay", "", "replay file")
-	flagSeed     = flag.String("seed", "", "base seed (default: $VERIF_SEED or 1)")
-	flagRepo     = flag.String("repo", "/repo", "repository under test")
-	flagRoot     = flag.String("root", "", "verif root (default: parent of the executable's directory)")
-	flagWorkers  = flag.Int("workers", 0, "worker processes (default: number of CPUs, at most 16)")
-	flagKeep     = flag.Bool("keep", false, "keep the scratch directory")
-	flagNoShrink = flag.Bool("noshrink", false, "do not minimise failures")
-	flagRuns     = flag.Int64("runs", 0, "override the number of seeded runs of the tier")
-	flagSelfTest = flag.Bool("selftest", false, "run only the determinism self-test of the property")
-	flagNoEvid   = flag.Bool("noevidence", false, "do not write the evidence file (used by development scripts)")
-	flagMode     = flag.String("mode", "", "restrict the check to one sub-mode (development)")
+	flagProperty  = flag.String("property", "", "property id (C05, C12, C13, C14, C19)")
+	flagTier      = flag.String("tier", "", "quick | thorough (default: $VERIF_TIER or quick)")
+	flagReplay    = flag.String("replay", "", "replay file")
+	flagSeed      = flag.String("seed", "", "base seed (default: $VERIF_SEED or 1)")
+	flagRepo      = flag.String("repo", "/repo", "repository under test")
+	flagRoot      = flag.String("root", "", "verif root (default: parent of the executable's directory)")
+	flagWorkers   = flag.Int("workers", 0, "worker processes (default: number of CPUs, at most 16)")
+	flagKeep      = flag.Bool("keep", false, "keep the scratch directory")
+	flagNoShrink  = flag.Bool("noshrink", false, "do not minimise failures")
+	flagRuns      = flag.Int64("runs", 0, "override the number of seeded runs of the tier")
+	flagSelfTest  = flag.Bool("selftest", false, "run only the determinism self-test of the property")
+	flagNoEvid    = flag.Bool("noevidence", false, "do not write the evidence file (used by development scripts)")
+	flagMode      = flag.String("mode", "", "restrict the check to one sub-mode (development)")
 	flagNoRegress = flag.Bool("noregress", false, "skip the committed regression tapes (to see what the search alone finds)")
-	flagPrewarm  = flag.Bool("prewarm", false, "build the plain and the race worker once to warm the Go build cache, then exit")
+	flagPrewarm   = flag.Bool("prewarm", false, "build the plain and the race worker once to warm the Go build cache, then exit")
 )
 
 var (
@@ -243,9 +243,11 @@ func prepare(needRace, needPlain bool) *build {
 			continue
 		}
 		json.Unmarshal(out.Bytes(), &b.instr)
-		if un, _ := b.instr["unmodelled_sync"].([]interface{}); len(un) > 0 && i == 0 {
-			// Channels, select, sync.Cond etc. in the code under test are not
-			// modelled by the scheduler: run it without statement yields.
+		if un, _ := b.instr["unmodelled_sync"].([]interface{}); len(un) > 0 && i < 2 {
+			// Channels, select, sync.Cond, timers in the code under test are not
+			// modelled by the scheduler: goroutines blocked on them would hold the
+			// simulated turn for ever. Run such code natively (map order and clock
+			// seams only; the race detector still watches it).
 			lastErr = fmt.Sprintf("unmodelled synchronisation in the code under test: %v", un)
 			continue
 		}
@@ -354,12 +356,12 @@ func writeOverlay(path string) error {
 // Workers.
 
 type failRec struct {
-	Property string          `json:"property"`
-	Seed     uint64          `json:"seed"`
-	Class    string          `json:"class"`
-	Sig      string          `json:"sig"`
-	Detail   string          `json:"detail"`
-	Replay   json.RawMessage `json:"replay"`
+	Property string                 `json:"property"`
+	Seed     uint64                 `json:"seed"`
+	Class    string                 `json:"class"`
+	Sig      string                 `json:"sig"`
+	Detail   string                 `json:"detail"`
+	Replay   json.RawMessage        `json:"replay"`
 	Extra    map[string]interface{} `json:"extra"`
 	race     bool
 	// sequence is set when the failure only reproduces as the tail of a worker's
@@ -776,6 +778,9 @@ func replayOne(b *build, path string) (*failRec, string) {
 		return nil, "replay needs a build that was not prepared"
 	}
 	rargs := []string{"-replay", path, "-corpus", b.corpus, "-sites", b.sites}
+	if libSpawnsGoroutines(b) {
+		rargs = append(rargs, "-libgo")
+	}
 	if rp := filepath.Join(scratch, "ref.json"); fileExists(rp) {
 		rargs = append(rargs, "-ref", rp)
 	}
@@ -992,6 +997,9 @@ func runSequence(b *build, race bool, args []string) []*failRec {
 		bin = b.race
 	}
 	full := append(append([]string{}, args...), "-corpus", b.corpus, "-sites", b.sites)
+	if libSpawnsGoroutines(b) {
+		full = append(full, "-libgo")
+	}
 	if rp := filepath.Join(scratch, "ref.json"); fileExists(rp) {
 		full = append(full, "-ref", rp)
 	}
